@@ -223,15 +223,12 @@ def api_case(ctx, shard, i, rng):
             c.feature("bases:mixed-value-dtypes")
         # (a base that is itself derivable from a smaller level is recomputed from it by zoomify_cooler;
         #  values are those of its source - checked above - but the dtype then follows the smaller base)
-        root = {}
-        for r in want_res:
-            preds = [q for q in want_res if q < r and r % q == 0]
-            root[r] = root[max(preds)] if preds else r
         with h5py.File(out, "r") as f:
             for r in want_res:
                 dt = str(f[f"/resolutions/{r}/pixels/count"].dtype)
-                c.check(dt == base_dtypes[root[r]], "level-value-dtype-not-from-its-base",
-                        f"level {r} derives from base {root[r]} ({base_dtypes[root[r]]}) but stores count as {dt}")
+                allowed = {base_dtypes[q] for q in bases if r % q == 0}       # whatever chain was used
+                c.check(dt in allowed, "level-value-dtype-not-from-a-base-it-derives-from",
+                        f"level {r} can only derive from bases with dtype {sorted(allowed)} but stores count as {dt}")
         if P and any(r > b for r in want_res):
             c.nontrivial(repr(bt), repr(sorted(P.items())), tuple(res), tuple(sorted(bases)), cs, nproc)
         ctx.sample({"base_binsize": b, "variable": variable, "resolutions": res, "bases": sorted(bases),
